@@ -289,6 +289,7 @@ theorem refines_thub (R : Rel E st sp) (s : Src α) (n : Nat) (hs : (Op.thub s n
   | list xs => exact key _ trivial (fun v hv => by cases hv)
   | chain xss => exact key _ trivial (fun v hv => by cases hv)
   | obj j => exact key _ trivial (fun v hv => by cases hv)
+  | mixed pre j post => exact key _ trivial (fun v hv => by cases hv)
   | cyc xs => exact absurd hs id
 
 theorem refines_tee (R : Rel E st sp) (i n : Nat) : Refines E st sp (.tee i n) := by
